@@ -174,3 +174,81 @@ pub const ASSUME: &[&str] = &[
     "exact rational arithmetic: for a unit rational q the four square roots in the matrix-to-quaternion conversion are 2|w|,2|x|,2|y|,2|z|, hence rational",
     "the reference rotation matrix is the harness' own sandwich product q e_c conj(q) from the Hamilton table",
 ];
+
+// ---------------------------------------------------------------- native: tiny rotations on f64 / f32
+
+/// Unit quaternions of very small rotation angle cannot be exact rationals with
+/// a scalar part that *rounds* to 1; on the real scalar types they are ordinary
+/// inputs.  The four representations must still rotate alike: agreement within
+/// 1e-12 (f64) / 5e-5 (f32) relative to |v|, four and two orders of magnitude
+/// above the rounding error of the formulas.
+pub fn native(cfg: &cgv_core::fw::RunCfg, extra: &mut cgv_core::fw::Extra) {
+    use cgmath::{Rad, Rotation3, Vector3};
+    use serde_json::json;
+    let n = if cfg.tier == Tier::Quick { 3000 } else { 200_000 };
+    let mut evals = 0u64;
+    let mut seen = std::collections::HashSet::new();
+    let mut worst = [0f64; 2];
+    macro_rules! run {
+        ($T:ty, $tag:expr, $tol:expr, $slot:expr, $min_exp:expr) => {{
+            for i in 0..n {
+                let mut rng = Rng::for_case(cfg.seed, concat!("c05_native_", $tag), i);
+                let axis = Vector3::new(rng.uniform(-1.0, 1.0), rng.uniform(-1.0, 1.0), rng.uniform(-1.0, 1.0));
+                if axis.magnitude2() < 0.01 {
+                    continue;
+                }
+                let axis: Vector3<$T> = axis.normalize().cast().unwrap();
+                let axis = axis.normalize();
+                let angle = (10f64.powf(rng.uniform($min_exp, 0.5)) * if rng.bool() { 1.0 } else { -1.0 }) as $T;
+                let v = Vector3::new(rng.uniform(-4.0, 4.0) as $T, rng.uniform(-4.0, 4.0) as $T, rng.uniform(-4.0, 4.0) as $T);
+                let r = cgv_core::fw::catch(|| {
+                    let q = Quaternion::from_axis_angle(axis, Rad(angle));
+                    let a = q * v;
+                    let b = Matrix3::from(q) * v;
+                    let c = Basis3::from(q).rotate_vector(v);
+                    let d = (Matrix4::from(q) * v.extend(0.0)).truncate();
+                    let e = Matrix3::from_axis_angle(axis, Rad(angle)) * v;
+                    let back: Quaternion<$T> = Matrix3::from(q).into();
+                    let f = back * v;
+                    let m = v.magnitude().max(1e-3) as f64;
+                    [(a - b).magnitude() as f64 / m, (a - c).magnitude() as f64 / m, (a - d).magnitude() as f64 / m, (a - e).magnitude() as f64 / m, (a - f).magnitude() as f64 / m]
+                });
+                evals += 1;
+                seen.insert((angle as f64).to_bits());
+                match r {
+                    Err(p) => {
+                        extra.violations.push((format!("native_agreement_{}", $tag), format!("unexpected panic: {p}"), json!({"index": i})));
+                        break;
+                    }
+                    Ok(errs) => {
+                        let names = ["q*v vs Matrix3::from(q)*v", "q*v vs Basis3", "q*v vs Matrix4", "q*v vs Matrix3::from_axis_angle", "q*v vs Quaternion::from(Matrix3::from(q))*v"];
+                        for (k, e) in errs.iter().enumerate() {
+                            worst[$slot] = worst[$slot].max(*e);
+                            if !(*e <= $tol) {
+                                extra.violations.push((
+                                    format!("native_agreement_{}", $tag),
+                                    format!("{}: relative disagreement {e:e} (tolerance {:e}) at rotation angle {angle:e}", names[k], $tol),
+                                    json!({"angle": angle as f64, "axis": [axis.x as f64, axis.y as f64, axis.z as f64], "v": [v.x as f64, v.y as f64, v.z as f64], "index": i}),
+                                ));
+                                break;
+                            }
+                        }
+                        if !extra.violations.is_empty() {
+                            break;
+                        }
+                    }
+                }
+            }
+        }};
+    }
+    run!(f64, "f64", 1e-12, 0, -12.0);
+    run!(f32, "f32", 5e-5, 1, -6.0);
+    extra.evaluations += evals;
+    extra.distinct_nontrivial += seen.len() as u64;
+    extra.samples.push(json!({"clause": "native_agreement", "example": "angle 3.2e-9 rad about a random unit axis: q*v, Matrix3::from(q)*v, Basis3, Matrix4, Matrix3::from_axis_angle, round trip through Matrix3"}));
+    extra.sections.insert(
+        "native_agreement_of_representations".into(),
+        json!({"cases": evals, "angles": "log-uniform 1e-12..3 rad (f64), 1e-6..3 rad (f32), both signs", "worst_relative_disagreement_f64": worst[0], "tolerance_f64": 1e-12,
+               "worst_relative_disagreement_f32": worst[1], "tolerance_f32": 5e-5}),
+    );
+}
